@@ -15,6 +15,8 @@ from .. import e1
 from ..rngseam import Policy, Z_GENERIC
 from ..spec import build_continuum, continuum_to_spec, spec_by_annotator, cont
 
+import numpy as np
+
 ID = "C15"
 TASK_TIMEOUT = 900.0
 PRECISION = 1e-6
@@ -145,6 +147,9 @@ def configs(tier):
     out.append({"ref": "A", "gt": ["b"], "history": [["init", None], ["sample"], ["add", "b", 20, 26, "y"]],
                 "bound": 2 if tier == "quick" else 3, "nz": 3})
     out.append({"custom": "K1", "history": [["initref", "A", None]], "bound": None, "nz": 2, "ncount": 3})
+    # the caller's parameter collections are NumPy arrays / a list which the caller re-uses (overwrites in place)
+    # after the initialisation: the draws follow what was supplied at initialisation
+    out.append({"custom": "K1", "caller_overwrites": True, "bound": None, "nz": 2, "ncount": 3})
     if tier == "thorough":
         out.append({"ref": "B", "gt": ["a", "c"], "bound": 5, "nz": 5, "boundary": True})
         out.append({"ref": "A", "gt": None, "bound": 4, "nz": 5, "boundary": True})
@@ -209,7 +214,16 @@ def make_fn_factory(cfg):
                 elif step[0] == "initref":
                     s.init_sampling(build_continuum(REFS[step[1]]), step[2])
             e1.mark("judged")
-            if "custom" in cfg:
+            if "custom" in cfg and cfg.get("caller_overwrites"):
+                kw = dict(CUSTOM[cfg["custom"]])
+                kw["annotators"] = list(kw["annotators"])
+                kw["categories"] = np.array(kw["categories"])
+                kw["categories_weight"] = np.array(kw["categories_weight"], dtype=np.float64)
+                s.init_sampling_custom(**kw)
+                kw["categories"][:] = "zz"
+                kw["categories_weight"][:] = kw["categories_weight"][::-1].copy()
+                kw["annotators"].append("intruder")
+            elif "custom" in cfg:
                 s.init_sampling_custom(**CUSTOM[cfg["custom"]])
             else:
                 s.init_sampling(c, cfg.get("gt"))
